@@ -520,6 +520,7 @@ def transformer_scc(ctx, rid, key, comp, g, bindings):
     # order of statements in resolve: lookup -> cache check -> mark in progress -> policy -> store result
     order = []
     weak_marker = False
+    weak_result = False
     def walk_through(body, depth=0):
         """source order, looking through private helpers of the transformer that do part of `resolve`'s work (their body stands at the call)"""
         for n in walk(body):       # closures in `resolve` are arguments of combinators: they run where they are written
@@ -535,6 +536,8 @@ def transformer_scc(ctx, rid, key, comp, g, bindings):
             kind = "Recursive" if "Recursive" in a else "Computed" if "Computed" in a else a[:30]
             if cshort(n["callee"]) != "HashMap::insert" and kind == "Recursive":
                 weak_marker = True      # keeps an existing (possibly Computed) entry
+            if cshort(n["callee"]) != "HashMap::insert" and kind == "Computed":
+                weak_result = True      # keeps the in-progress marker that was set for this id just before: the result is never stored
             if kind == "Recursive" and marker_node is None:
                 marker_node = n
             order.append("insert:" + kind)
@@ -566,6 +569,10 @@ def transformer_scc(ctx, rid, key, comp, g, bindings):
     ctx.expect(order == want, rid, key + "/marker-order", fn["sp"],
                "resolve(): consult recurse/cache-hit policy, mark the id in progress, run the policy, store the result - in this order",
                "order of cache operations and policy calls in Transformer::resolve is %s, expected %s" % (order, want))
+    ctx.expect(not weak_result, rid, key + "/result-overwrites", fn["sp"],
+               "the finished result replaces the in-progress marker of its id (a plain insert under the same key)",
+               "the finished result is stored with `entry(id).or_insert..`, which keeps the in-progress marker set just before: every later visit of a finished type "
+               "is taken for a re-entry (the example generators then fail on any type that occurs twice, the description names it instead of describing it)")
     if weak_marker:
         # `entry(id).or_insert(Recursive)` leaves a Computed entry in place: safe only if the bound cache-hit policy never lets
         # the transformer continue (never returns None) - otherwise a type computed once loses its recursion guard
